@@ -198,6 +198,9 @@ pub struct Cfg {
     /// flex: the multisig is registered as a hook of its group (every accepted UpdateMembers is followed,
     /// in the same transaction, by a MemberChangedHook call into the multisig)
     pub hooked: bool,
+    /// block time step in nanoseconds (DT seconds by default; sub-second in the configurations that put the
+    /// expiry instant inside a second)
+    pub tick_ns: u64,
 }
 
 impl Cfg {
@@ -234,6 +237,7 @@ impl Cfg {
             purse: 0,
             exec_iff: false,
             hooked: false,
+            tick_ns: DT * NS,
         }
     }
     pub fn addr(&self, i: u8) -> String {
@@ -245,9 +249,15 @@ impl Cfg {
     fn max_expiry(&self, h: u64, t: u64) -> Expiration {
         match self.period {
             Per::H(n) => Expiration::AtHeight(h + n),
-            Per::T(n) => Expiration::AtTime(Timestamp::from_seconds(t + n)),
+            Per::T(n) => Expiration::AtTime(Timestamp::from_nanos(t + n * NS)),
         }
     }
+}
+
+pub const NS: u64 = 1_000_000_000;
+/// (height, time in nanoseconds) of the world's current block
+pub fn now(w: &World) -> (u64, u64) {
+    (w.height, w.time_s * NS + w.time_ns)
 }
 
 #[derive(Clone, Copy, Debug, PartialEq, Eq, Hash, PartialOrd, Ord)]
@@ -261,7 +271,7 @@ impl ExpKey {
         match e {
             Expiration::Never {} => ExpKey::Never,
             Expiration::AtHeight(h) => ExpKey::H(*h),
-            Expiration::AtTime(t) => ExpKey::T(t.seconds()),
+            Expiration::AtTime(t) => ExpKey::T(t.nanos()),
         }
     }
     fn expired(&self, h: u64, t: u64) -> bool {
@@ -618,12 +628,12 @@ impl Cw3Model {
             (LatestA::Unset, _) => None,
             (LatestA::Never, _) => Some(Expiration::Never {}),
             (LatestA::Shorter, Per::H(_)) => Some(Expiration::AtHeight(h + 1)),
-            (LatestA::Shorter, Per::T(_)) => Some(Expiration::AtTime(Timestamp::from_seconds(t + DT))),
+            (LatestA::Shorter, Per::T(_)) => Some(Expiration::AtTime(Timestamp::from_nanos(t + cfg.tick_ns))),
             (LatestA::Longer, Per::H(n)) => Some(Expiration::AtHeight(h + n + 2)),
-            (LatestA::Longer, Per::T(n)) => Some(Expiration::AtTime(Timestamp::from_seconds(t + n + 2 * DT))),
+            (LatestA::Longer, Per::T(n)) => Some(Expiration::AtTime(Timestamp::from_nanos(t + n * NS + 2 * cfg.tick_ns))),
             (LatestA::AlreadyExpired, Per::H(_)) => Some(Expiration::AtHeight(h)),
-            (LatestA::AlreadyExpired, Per::T(_)) => Some(Expiration::AtTime(Timestamp::from_seconds(t))),
-            (LatestA::OtherKind, Per::H(_)) => Some(Expiration::AtTime(Timestamp::from_seconds(t + DT))),
+            (LatestA::AlreadyExpired, Per::T(_)) => Some(Expiration::AtTime(Timestamp::from_nanos(t))),
+            (LatestA::OtherKind, Per::H(_)) => Some(Expiration::AtTime(Timestamp::from_nanos(t + cfg.tick_ns))),
             (LatestA::OtherKind, Per::T(_)) => Some(Expiration::AtHeight(h + 1)),
         }
     }
@@ -653,7 +663,7 @@ impl Cw3Model {
 
     fn check_state(&self, w: &World, r: &Ref, o: &Obs, v: &mut Vec<Violation>) {
         let cfg = &self.cfg;
-        let (h, t) = (w.height, w.time_s);
+        let (h, t) = now(w);
         for e in &o.errors {
             // a query that aborts is attributed to the known same-block finding only if it concerns a
             // proposal that was created after a group change in its own block (its tally can exceed
@@ -880,7 +890,7 @@ impl Cw3Model {
                     }
                 }
             }
-            wk.advance(1, DT);
+            wk.advance_nanos(1, self.cfg.tick_ns);
         }
         false
     }
@@ -1083,14 +1093,14 @@ impl Model for Cw3Model {
         let mut w = s.w.clone();
         let mut r = s.r.clone();
         let pre = &*s.obs;
-        let (h, t) = (s.w.height, s.w.time_s);
+        let (h, t) = now(&s.w);
         let lbl = label(a);
         let msa = ms();
         let mut ok = true;
         let mut out_tx: Option<mc::TxOut> = None;
         match a {
             Act::Advance => {
-                w.advance(1, DT);
+                w.advance_nanos(1, cfg.tick_ns);
                 r.group_start = r.group_now.clone();
                 r.changed_this_block = false;
             }
@@ -1520,7 +1530,7 @@ impl Model for Cw3Model {
         // ---------------------------------------------------------------- C15: recoverability of failed proposals' deposits
         if cfg.props.c15 && matches!(a, Act::Vote { .. } | Act::Advance | Act::Close { .. } | Act::Propose { .. }) {
             if let Dep::Native { refund: true, .. } | Dep::Cw20 { refund: true, .. } = cfg.deposit {
-                let (nh, nt) = (w.height, w.time_s);
+                let (nh, nt) = now(&w);
                 for (pr, po) in r.props.iter().zip(obs.props.iter()) {
                     if pr.returned > 0 || pr.executed || !pr.taken {
                         continue;
